@@ -79,6 +79,31 @@ def rpc(case, res):
                     b.note("batch", c.name, msgs)
                     S.batch(c, msgs, chunks=pick_chunks(rng), hostile=True)
                     S.sig("batch", min(len(msgs), 3))
+                elif r < 0.53 and r >= 0.5:
+                    # a rule object with repeated member names (legal JSON): more matchers than the daemon accepts, or just many
+                    names = [rng.choice(["equals", "equalsNot", "startsWith", "endsWith", "contains", "containsAllOf"]) for _ in range(rng.choice([7, 12, 13, 14, 20]))]
+                    rule = "{" + ",".join('"%s":%s' % (m, '["a","b"]' if m == "containsAllOf" else '"a"') for m in names) + "}"
+                    meth = rng.choice(["get", "fetch"])
+                    S.idc += 1
+                    rid = rng.choice([S.idc, "r%d" % S.idc, None])
+                    fid = "F%d" % S.idc
+                    head = "" if rid is None else '"id":%s,' % json.dumps(rid)
+                    params = '{"id":"%s","path":%s}' % (fid, rule) if meth == "fetch" else '{"path":%s}' % rule
+                    txt = '{%s"method":"%s","params":%s}' % (head, meth, params)
+                    shadow = {"method": meth, "params": {"path": {m: (["a", "b"] if m == "containsAllOf" else "a") for m in names}}}
+                    if rid is not None:
+                        shadow["id"] = rid
+                    if meth == "fetch":
+                        shadow["params"]["id"] = fid
+                    if rng.random() < 0.3:
+                        txt = "[" + txt + ',{"id":%d,"method":"info"}]' % (S.idc + 500000)
+                        S._register(c, shadow, True)
+                        S._register(c, {"id": S.idc + 500000, "method": "info"}, True)
+                    else:
+                        S._register(c, shadow, True)
+                    b.note("repeated-members", c.name, txt[:200])
+                    S.send_payload(c, txt.encode(), chunks=pick_chunks(rng))
+                    S.sig("repeated-members", meth, len(names) > 12, rid is None)
                 elif r < 0.5:
                     # an incoming response object that answers nothing
                     m = {"id": rng.choice(["nobody", 5, None, "x_1_0x1"]), rng.choice(["result", "error"]): hostile.rnd_json(rng)}
@@ -133,6 +158,11 @@ class Witness:
             S.request(self.w1, "add", {"path": pth, "value": S.next_val(self.w1)})
         S.request(self.w2, "fetch", {"id": "wf", "path": {"startsWith": "w/"}})
         S.request(self.w1, "fetch", {"id": "wg", "path": {"startsWith": "w/", "endsWith": "1"}})
+        # rules whose operand is (much) longer than every path that exists: they match nothing and must not look outside the paths
+        for ci in (True, False):
+            for m in ("equals", "equalsNot", "startsWith", "endsWith", "contains", "containsAllOf"):
+                op = "W/" + "Z" * min(rng.choice([9, 17, 40, 120]), max(S.max_msg // 2 - 60, 9))      # (the request stays below the message limit)
+                S.request(self.w2 if ci else self.w1, "get", {"path": {m: [op, "w"] if m == "containsAllOf" else op, "caseInsensitive": ci}})
         self.n = 0
 
     def tick(self):
